@@ -2,33 +2,33 @@ SPECIFICATION Spec
 CONSTANTS
   PosPeriod = 1
   NegPeriod = 0
-  MaxClock = 2
-  MaxCalls = 3
+  MaxClock = 0
+  MaxCalls = 4
   AllowRChoices = {{}}
   AllowSChoices = {{"R"}}
-  RecogAInit = {TRUE}
+  RecogAInit = {TRUE, FALSE}
   ChainPeers = {"A"}
-  MaxChain = 1
+  MaxChain = 0
   MaxErr = 0
-  GuardOn = TRUE
+  GuardOn = FALSE
   Nonces = {1}
   HsBudget = 0
-  MaxDials = 0
+  MaxDials = 2
   MaxAdvDials = 1
-  MaxDrops = 0
+  MaxDrops = 1
   Handlers = {"h1"}
-  CancelHandlers = {}
+  CancelHandlers = {"h1"}
   MaxSend = 1
   MaxRetx = 2
   Cap = 1
   SecondCheck = TRUE
   Filter = TRUE
-  MaxTicks = 0
+  MaxTicks = 1
   Backoff1 = FALSE
   Backoff2 = TRUE
-  CancelMsgs = {}
+  CancelMsgs = {1}
   MaxAdv = 1
-  AdvKinds = {"own"}
+  AdvKinds = {"own", "impostor", "replay"}
   FwInbound = TRUE
   VerifyAct1 = TRUE
   MatchInner = TRUE
